@@ -29,7 +29,7 @@ m = {
     "setup_cmd": "./check --setup",
     "hooks": {
         "guard": "cargo feature `verif` (ractor/verif; ractor_cluster/verif), off by default",
-        "enable": "harness/Cargo.toml depends on /repo/ractor (and /repo/ractor_cluster) with features=[\"verif\"]; ./check builds it with cargo build --release --offline",
+        "enable": "harness/Cargo.toml depends on /repo/ractor (and /repo/ractor_cluster) with features=[\"verif\"]; ./check builds it with cargo build --release --offline (configurations main, alt, miri, tsan, asan: lib/props.py BUILDS)",
         "baseline_off_cmd": "cd /repo && cargo nextest run --workspace --no-fail-fast --offline --test-threads 8 || cargo test --workspace --no-fail-fast --offline",
         "source_commits": HOOK_COMMITS,
         "add_only": True,
@@ -37,7 +37,11 @@ m = {
     "engines": [
         {"name": "E-A vt", "path": "harness/src/vt.rs", "kind_free_text": "deterministic virtual-time engine: tokio current_thread + paused clock + seeded poll interposer (H2), CutAfter / abort-at-poll-k crash injection, quiescence oracle"},
         {"name": "E-T th", "path": "harness/src/th.rs", "kind_free_text": "thread-stress engine: multi-thread runtime + client OS threads, seeded noise / rendezvous at H1 points, global logical clock stamps at the client boundary"},
-        {"name": "E-M miri", "path": "harness/src/props (miri subcommands)", "kind_free_text": "cut-down thread scenarios under Miri with many seeds (weak memory emulation, data-race/UB detection)"},
+        {"name": "E-M miri", "path": "harness/src/props (miri subcommands), lib/miri_run.sh", "serves_properties": ["C06", "C07", "C10", "C11"], "kind_free_text": "detached-cell thread scenarios under Miri (UB, data races, weak memory emulation), yield/rendezvous scheduling at the H1 points"},
+        {"name": "E-S sanitizers", "path": "harness/src/props/san.rs, check (report parsing, self-test), lib/tsan.supp", "kind_free_text": "the harness built with ThreadSanitizer (-Zbuild-std) and with AddressSanitizer+LeakSanitizer: quiet canary workloads without a shared log, slices of each property's E-T scenarios under tsan and of its single-threaded engines under asan; a deliberate race / use-after-free / leak must be reported first"},
+        {"name": "E-TCP tcp", "path": "harness/src/props/tcp.rs", "serves_properties": ["C17", "C18", "C19", "C20"], "kind_free_text": "two NodeServers over real loopback TCP (listener, client_connect, cuttable fragmenting relay, raw-socket adversaries); deadline-free clauses only (fences, end states)"},
+        {"name": "ser", "path": "harness/src/props/ser.rs", "serves_properties": ["C01", "C02", "C04"], "kind_free_text": "wire-format delivery (send_serialized) mixed with typed sends on the virtual-time engine"},
+        {"name": "dtab", "path": "harness/src/props/mtab.rs", "serves_properties": ["C10", "C11"], "kind_free_text": "detached-cell registry / pg tables scenario (native under H1 noise, under tsan, under Miri) with a history-free end-state oracle"},
     ],
     "checks": checks,
     "not_applicable": na,
